@@ -1,0 +1,26 @@
+//go:build verif
+
+package server
+
+import "sync/atomic"
+
+// afterCommandRead is a verification hook (build tag "verif" only): it is called on the connection's
+// goroutine after a command header has been read and before its arguments are, the point at which a
+// busy scheduler may keep the goroutine waiting. The harness uses it to inject such delays.
+var afterCommandRead atomic.Pointer[func()]
+
+// SetAfterCommandReadHook installs (or, with nil, removes) the hook.
+func SetAfterCommandReadHook(f func()) {
+	if f == nil {
+		afterCommandRead.Store(nil)
+		return
+	}
+
+	afterCommandRead.Store(&f)
+}
+
+func verifAfterCommandRead() {
+	if f := afterCommandRead.Load(); f != nil {
+		(*f)()
+	}
+}
